@@ -1,6 +1,6 @@
 #!/bin/sh
 # Entry point of every registered command: rebuilds the runner (cached) and executes it.
-cd /verif || exit 2
+cd "${VERIF_ROOT:-/verif}" || exit 2
 . ./env.sh
 mkdir -p bin
 go build -o bin/verif ./cmd/verif || { echo "BROKEN: runner build failed" >&2; exit 2; }
